@@ -357,8 +357,7 @@ def small_alphabet(kind, desc, pool):
     if kind != "path":
         alpha.append(("index", pool[-1] if pool else (0, 0, 0)))
         alpha.append(("tuple", 0))
-    else:
-        alpha.append(("qubo", False, None))
+    alpha.append(("qubo", False, None))       # the default-penalty QUBO (it reads sizes, e.g. the grid length, on its own)
     return alpha
 
 
